@@ -130,6 +130,15 @@ def check_step(ctx, rs, model, gemini, weights, before, grads, Xb, Ab, pairs, in
     try:
         for w, b in zip(weights, before):
             np.copyto(w, b)
+        if type(gemini).__name__ == "MMDGEMINI" and Ab is not None:
+            # next to a zero MMD distance (two clusters with nearly the same conditional distribution: typical right after a random
+            # initialisation) the gradient divides by the square root of a cancelling difference; any two correct evaluations differ
+            # there by far more than the tolerance (gemini_lib.mmd_conditioning, DESIGN 18): counted, not judged
+            from .. import gemini_lib as _gl
+            if _gl.mmd_conditioning(np.asarray(model._infer(Xb, retain=False), dtype=float), np.asarray(Ab, dtype=float),
+                                    bool(gemini.ovo), float(gemini.epsilon)) < 1e-6:
+                ctx.count("illconditioned_mmd_step_skipped")
+                return True
         for pi, (w, g) in enumerate(zip(weights, grads)):
             for _ in range(2):
                 D = rs.randn(*w.shape)
